@@ -20,7 +20,7 @@ from ..frontend import AnalysisError, Program, norm_text
 from ..poly import p_add, p_const, p_mul, p_neg, show, to_poly
 from ..report import Instance, Report
 from .c09 import _heads
-from .harness import parallel_map, run_op, where
+from .harness import parallel_map, run_op, valeq_instances, where
 from .symm import find_calls
 
 FLIP = {"LT": "GT", "GT": "LT", "EQ": "EQ"}
@@ -187,6 +187,10 @@ def _job(idx: int) -> List[Dict[str, Any]]:
     # ---- R7.6 mu is changed by the exchange only: no store to a passed rating's mu outside the kernel (e.g. in the cap)
     try:
         oc2 = run_op(prog, roles, "rate", ranks="list-of-int", tau="any", limit_sigma="truthy")
+        ve = valeq_instances(oc2, "R7.10", "so a tied team with identical ratings is taken for the team itself (or a pair is dropped): what one team gains is no longer what the other loses")
+        out.extend(ve)
+        if not ve:
+            inst("R7.10", "HOLDS", "teams are told apart by position, never by the value equality of their ratings")
         stray = [ev for ev in oc2.I.events if ev.kind == "write" and ev.data["origin"] == "input:player" and ev.data["field"] == "mu" and not in_kernel(ev.stack)]
         if oc2.undecided:
             inst("R7.6", "UNDECIDED", "mu is stored by the kernel only", "; ".join(oc2.undecided[:2]))
